@@ -63,6 +63,14 @@ func SMStore(m *sync.Map, k, v interface{}) {
 	m.Store(k, v)
 }
 
+// SMCompareAndDelete replaces (*sync.Map).CompareAndDelete.
+func SMCompareAndDelete(m *sync.Map, k, old interface{}) bool {
+	YieldFine("sm.CompareAndDelete")
+	SyncOp(m)
+
+	return m.CompareAndDelete(k, old)
+}
+
 // SMDelete replaces (*sync.Map).Delete.
 func SMDelete(m *sync.Map, k interface{}) {
 	YieldFine("sm.Delete")
